@@ -390,6 +390,31 @@ class Impl:
         elif op == "bounds":
             lo, hi = Fraction(args[1]), Fraction(args[2])
             g.set_bounds(args[0], _num(lo), _num(hi))
+        elif op == "hookctx":
+            # `with g.move_hook(hook):` entered / left (also on the exception path); the model sees add / remove
+            spec = args[1]
+            if args[0] == "enter":
+                if spec not in self.hooks:
+                    self.hooks[spec] = self._mk_hook(spec)
+                cm = g.move_hook(self.hooks[spec])
+                cm.__enter__()
+                self.hook_ctx = getattr(self, "hook_ctx", []) + [(spec, cm)]
+                line = f"hook add {self.model_hook_spec(spec)}"
+            else:
+                stack = getattr(self, "hook_ctx", [])
+                if stack:
+                    spec, cm = stack.pop()
+                    if args[0] == "exitraise":
+                        try:
+                            cm.__exit__(KeyError, KeyError("raised in the with-block by the harness"), None)
+                        except KeyError:
+                            pass
+                    else:
+                        cm.__exit__(None, None, None)
+                    line = f"hook remove {self.model_hook_spec(spec)}"
+                else:
+                    line = "comment"
+                    g.comment("harness comment")
         elif op == "hook":
             spec = args[1]
             if args[0] == "add":
